@@ -5,7 +5,14 @@ content across processes).
 
 The Model spec also holds the frame of the writers / code generators (C06: no API call changes its
 input): model.code, update_source, write_model, write_csv and write_files on models derived from a
-parent with which they share their data frames (section "Model: the frame of the writers").
+parent with which they share their data frames (section "Model: the frame of the writers"), and the
+converters to nlmixr / rxode / generic on models whose dataset has the optional NM-TRAN data items.
+
+Equality consistent with hashing is also evaluated ALONG derivations (hashes are cached in the objects):
+replace() of every class and frozenmapping.replace on an object that had been hashed before, and
+transformations of a model that had been hashed before, against the same derivation of a never-hashed
+object.  Round trips (dictionary form, generic code) are also evaluated on the ODE structures the API
+produces and on compartmental systems with compartments that take part in no flow.
 
 Corpora are built by ONE-FIELD PERTURBATION of a base set of constructor arguments (every entry is built
 by a fresh constructor call; 'same' entries give the same value built differently).  All pairs of a class
@@ -52,6 +59,13 @@ C_WF_NAMES = 'names are unique in the returned collection, else ValueError'
 C_WF_NAMES_INDEX = 'indexing with a list of names returns a collection with unique names'
 C_WF_INVALID = 'invalid constructor arguments raise the documented ValueError/TypeError'
 C_WF_STATS = 'Model.create raises ValueError iff a statement uses an undefined or later-defined symbol'
+C_DERIVE = ('x.replace(...) does not depend on whether x had been hashed before: the two results are equal and '
+            'equal objects (also the one created directly from the same arguments) have equal hashes')
+C_FM_REPLACE = ('frozenmapping.replace returns the mapping with the key set - equal to and hashing like the '
+                'mapping created directly - and leaves the source unchanged, whether or not the source had been '
+                'hashed before')
+C_MODEL_DERIVE = ('a transformation of a model that had been hashed before gives a model equal to, and hashing '
+                  'like, the same transformation of a never-hashed copy of that model')
 
 
 def _fid(cls, meth=None):
@@ -100,6 +114,7 @@ class Entry:
         self.field = field
         self.value = value
         self.obj = None
+        self.derive = None  # (make, base arguments, overrides) of a one-field perturbation
 
 
 def _perturb(make, base, alts=(), sames=(), extra=()):
@@ -126,6 +141,7 @@ def _perturb(make, base, alts=(), sames=(), extra=()):
         label = lab(ov)
         f, v = (next(iter(ov.items())) if len(ov) == 1 else (None, None))
         ents.append(Entry(label, (lambda ov=ov: make(**{**base, **ov})), field=f, value=v))
+        ents[-1].derive = (make, base, ov)
     for ov in sames:
         ov = dict(ov)
         label = lab(ov, 'same:')
@@ -417,6 +433,108 @@ def _dict_diff(a, b, path=''):
     return f'{path}: {_short(a, 60)} vs {_short(b, 60)}'
 
 
+def _derive_case(fid, make, base, ov):
+    """base.replace(**ov) on a never-hashed and on a hashed base object, and create(**base, **ov)"""
+    def attempt(hashed):
+        src = make(**base)
+        if hashed:
+            hash(src)
+        try:
+            return 'returned', src.replace(**ov)
+        except Exception as e:
+            return 'raised', _exc(e)
+
+    a, b = attempt(False), attempt(True)
+    if a[0] != b[0]:
+        return [(fid, C_DERIVE, False, f'replace on the never-hashed object {a[0]} {_short(a[1], 60)}, on the '
+                 f'hashed object {b[0]} {_short(b[1], 60)}')]
+    if a[0] == 'raised':
+        return [(fid, C_DERIVE, True, '')]  # replace() does not accept these arguments
+    x, y = a[1], b[1]
+    try:
+        same = _eq(x, y) and _eq(y, x)
+    except Exception as e:
+        return [(fid, C_DERIVE, False, 'comparing the two results raised ' + _exc(e))]
+    if not same:
+        return [(fid, C_DERIVE, False, f'replace on the never-hashed object gives {_short(x, 60)}, on the hashed '
+                 f'object {_short(y, 60)}')]
+    if hash(x) != hash(y):
+        return [(fid, C_DERIVE, False, 'the results are equal but the one derived from the hashed object has '
+                 f'another hash ({_short(y, 60)})')]
+    try:
+        z = make(**{**base, **ov})
+    except Exception:
+        return [(fid, C_DERIVE, True, '')]
+    for name, r in (('never-hashed', x), ('hashed', y)):
+        if _eq(r, z) and _eq(z, r) and hash(r) != hash(z):
+            return [(fid, C_DERIVE, False, f'the result of replace on the {name} object equals the object created '
+                     f'directly ({_short(z, 60)}) but has another hash')]
+    return [(fid, C_DERIVE, True, '')]
+
+
+def _derive_wf(spec, tier):
+    """replace() on a hashed source, for every one-field perturbation of the base arguments of a class with
+    create() and replace()"""
+    if not hasattr(spec.cls, 'replace'):
+        return
+    fid = spec.fid('replace')
+    for ent in spec.entries(tier):
+        if ent.derive is None:
+            continue
+        make, base, ov = ent.derive
+        if getattr(make, '__self__', None) is not spec.cls:
+            continue  # the corpus of this class wraps the constructor arguments
+        yield (f'base.replace({ent.label}) with base hashed before / never hashed',
+               (lambda make=make, base=base, ov=ov: _derive_case(fid, make, base, ov)))
+
+
+def _all_wf(spec, tier):
+    """the well-formedness cases of the class followed by the generic replace-after-hash cases"""
+    if spec.wf is not None:
+        yield from spec.wf(tier)
+    yield from _derive_wf(spec, tier)
+
+
+def _wf_eval(spec, thunk):
+    try:
+        return thunk()
+    except Exception as e:
+        return [(spec.fid('create'), C_WF_INVALID, False, 'internal error ' + _exc(e))]
+
+
+def _wf_worker(args):
+    """the cases number k, k + step, k + 2*step, ... of the class (the case list is rebuilt in the worker)"""
+    name, tier, k, step = args
+    warnings.filterwarnings('ignore')
+    spec = next(sp for sp in _specs() if sp.name == name)
+    out = []
+    for i, (case_id, thunk) in enumerate(_all_wf(spec, tier)):
+        if i % step == k:
+            out.append((i, case_id, _wf_eval(spec, thunk)))
+    return out
+
+
+WF_NPROC = 16
+
+
+def _wf_results(spec, tier):
+    """(case id, results) of every well-formedness case in enumeration order.  The cases of a class marked
+    parallel_wf (independent of each other: each builds its own objects) are evaluated by a pool of forked
+    workers."""
+    if not getattr(spec, 'parallel_wf', False):
+        for case_id, thunk in _all_wf(spec, tier):
+            yield case_id, _wf_eval(spec, thunk)
+        return
+    import multiprocessing
+
+    _pheno()  # loaded once, inherited by the workers
+    ctx = multiprocessing.get_context('fork')
+    with ctx.Pool(WF_NPROC) as pool:
+        parts = pool.map(_wf_worker, [(spec.name, tier, k, WF_NPROC) for k in range(WF_NPROC)], chunksize=1)
+    for i, case_id, results in sorted((r for part in parts for r in part), key=lambda r: r[0]):
+        yield case_id, results
+
+
 def _check_spec(spec, tier):
     """-> (cases, nontrivial, fails(dict key->fail), samples)"""
     fails = {}
@@ -457,16 +575,11 @@ def _check_spec(spec, tier):
         if not ok:
             note(fid, clause, ok, f'x = {ents[i].label}, y = {ents[j].label}: ' + detail,
                  {'kind': 'pair', 'x': ents[i].label, 'y': ents[j].label})
-    if spec.wf is not None:
-        for case_id, thunk in spec.wf(tier):
-            cases += 1
-            nontriv += 1
-            try:
-                results = thunk()
-            except Exception as e:
-                results = [(spec.fid('create'), C_WF_INVALID, False, 'internal error ' + _exc(e))]
-            for fid, clause, ok, detail in results:
-                note(fid, clause, ok, f'{case_id}: ' + detail, {'kind': 'wf', 'x': case_id})
+    for case_id, results in _wf_results(spec, tier):
+        cases += 1
+        nontriv += 1
+        for fid, clause, ok, detail in results:
+            note(fid, clause, ok, f'{case_id}: ' + detail, {'kind': 'wf', 'x': case_id})
     samples = [f'{spec.name}:{e.label}' for e in ents[2:4]]
     return cases, nontriv, fails, samples
 
@@ -618,6 +731,48 @@ def _frozenmapping_entries(tier):
         ('3 keys rotated', lambda: frozenmapping({'c': 3, 'a': 1, 'b': 2}), '3 keys'),
     ]
     return _perturb(mk, base, alts, sames, extra)
+
+
+def _frozenmapping_wf(tier):
+    """replace(key, value) against dict semantics: every base mapping x key (present / new) x value, the source
+    never hashed / hashed before / a frozenmapping copy of a hashed mapping"""
+    from pharmpy.internals.immutable import frozenmapping
+
+    fid = _fid(frozenmapping, 'replace')
+    bases = [{}, {'a': 1}, {'a': 1, 'b': 2}, {'b': 2, 'a': 1}]
+    if tier != 'quick':
+        bases += [{'a': 1, 'b': 2, 'c': 3}, {1: 'a', 2: 'b'}]
+    sources = ('never hashed', 'hashed before', 'copy of a hashed mapping')
+
+    def one(d, k, v, how):
+        src = frozenmapping(d)
+        if how == 'hashed before':
+            hash(src)
+        elif how == 'copy of a hashed mapping':
+            first = frozenmapping(d)
+            hash(first)
+            src = frozenmapping(first)
+        new = src.replace(k, v)
+        ref = dict(d)
+        ref[k] = v
+        direct = frozenmapping(ref)
+        if dict(new) != ref or not _eq(new, direct) or not _eq(direct, new):
+            return [(fid, C_FM_REPLACE, False, f'returned {new!r}, expected {ref!r}')]
+        if hash(new) != hash(direct):
+            return [(fid, C_FM_REPLACE, False, f'returned {new!r}, which equals frozenmapping({ref!r}) but has '
+                     'another hash')]
+        again = frozenmapping(d)
+        if dict(src) != d or not _eq(src, again) or hash(src) != hash(again):
+            return [(fid, C_FM_REPLACE, False, f'the source is now {src!r} (hash equal to that of a new '
+                     f'frozenmapping({d!r}): {hash(src) == hash(again)})')]
+        return [(fid, C_FM_REPLACE, True, '')]
+
+    for d in bases:
+        for k in list(d) + ['z']:
+            for v in (1, 2, 'x'):
+                for how in sources:
+                    yield (f'frozenmapping({d!r}) [{how}].replace({k!r}, {v!r})',
+                           (lambda d=d, k=k, v=v, how=how: one(d, k, v, how)))
 
 
 # ------------------------------------------------------------------------------------------------
@@ -1081,6 +1236,7 @@ def _cs_build(comp_order, flow_order, t='t', kind='base', direct=False, implicit
         'D': Compartment.create('DEPOT', doses=(dose,) if kind != 'dose central' else ()),
         'C': Compartment.create('CENTRAL', doses=(dose,) if kind == 'dose central' else ()),
         'P': Compartment.create('PERIPHERAL'),
+        'A': Compartment.create('AUC', input=Expr.function('A_CENTRAL', 't') / Expr.symbol('V1')),
         'O': output,
     }
     rates = {('D', 'C'): 'KA', ('C', 'P'): 'Q/V1', ('P', 'C'): 'Q/V2', ('C', 'O'): 'CL/V1'}
@@ -1146,6 +1302,24 @@ def _cs_entries(tier):
               same_as='builder:dose in central'),
         Entry('builder:empty', lambda: CompartmentalSystem.create(CompartmentalSystemBuilder())),
     ]
+    # every subset of the flows that keeps the output flow (compartments that lose all their flows stay in the
+    # system as isolated nodes), without and with an accumulation compartment that takes part in no flow at all
+    present = {e.label for e in ents}
+    for k in range(0, 4):
+        for sub in itertools.combinations(_CS_FLOWS[:3], k):
+            flows = sub + ('CO',)
+            for comps in ('DCP', 'DCPA'):
+                if comps == 'DCP' and (flows == _CS_FLOWS or flows == ('DC', 'CP', 'CO')):
+                    continue  # 'base' and 'builder:no back flow'
+                label = f'builder:comps {comps} flows {",".join(flows)}'
+                assert label not in present
+                ents.append(Entry(label, (lambda comps=comps, flows=flows: _cs_build(comps, flows))))
+    ents += [
+        Entry('builder:comps DCPA flows DC,CP,PC,CO other order',
+              lambda: _cs_build('APCD', tuple(reversed(_CS_FLOWS))), same_as='builder:comps DCPA flows DC,CP,PC,CO'),
+        Entry('builder:comps DCP flows CO other order', lambda: _cs_build('PCD', ('CO',)),
+              same_as='builder:comps DCP flows CO'),
+    ]
     return ents
 
 
@@ -1195,6 +1369,13 @@ def _statements_entries(tier):
         ('before+ode+after', lambda: (lambda s: s.before_odes + s.ode_system + s.after_odes)(
             Statements.create((a1, a2, cs, a3, a4))), 'base'),
         ('empty ctor', lambda: Statements(), 'statements=()'),
+        ('ODE with an accumulation compartment outside every flow',
+         lambda: Statements.create((a1, a2, _cs_build('DCPA', _CS_FLOWS), a3, a4)), None),
+        ('ODE with an accumulation compartment outside every flow:built in another order',
+         lambda: Statements.create((a1, a2, _cs_build('APCD', tuple(reversed(_CS_FLOWS))), a3, a4)),
+         'ODE with an accumulation compartment outside every flow'),
+        ('ODE with a peripheral compartment outside every flow',
+         lambda: Statements.create((a1, a2, _cs_build('DCP', ('DC', 'CO')), a3, a4)), None),
     ]
     return _perturb(Statements.create, base, alts, sames, extra)
 
@@ -1977,9 +2158,11 @@ def _frame_case(parent_label, tr_label, writer_label, tier):
 
     from pharmpy.model import Model
 
-    parent = _frame_parents()[parent_label]()
+    parents = _frame_parents()
+    parent = (parents[parent_label] if parent_label in parents else _convert_parents(tier)[parent_label])()
     psnap = _frame_snapshot(parent)
-    fid, call = _frame_writers()[writer_label]
+    writers = _frame_writers()
+    fid, call = writers[writer_label] if writer_label in writers else _convert_writers()[writer_label]
     tr_fn, tr_call = _frame_transformations(tier)[tr_label]
     tr_fid = _fid(tr_fn) if tr_fn is not None else _fid(Model, 'replace')
     res = []
@@ -2026,9 +2209,311 @@ def _model_frame_wf(tier):
                        (lambda pl=pl, tl=tl, wl=wl: _frame_case(pl, tl, wl, tier)))
 
 
+# ------------------------------------------------------------------------------------------------
+# Model: the converters to other model formats are held to the same frame, on models whose dataset has the
+# optional NM-TRAN data items (the converters edit the dataset for their target tool)
+# ------------------------------------------------------------------------------------------------
+# column -> (column type in the datainfo, value of a dose record, value of any other record)
+_CONVERT_COLUMNS = {
+    'RATE': ('rate', 0.0, 0.0),
+    'DUR': ('unknown', 0.0, 0.0),
+    'SS': ('ss', 0, 0),
+    'II': ('ii', 0, 0),
+    'ADDL': ('additional', 0, 0),
+    'CMT': ('compartment', 1, 1),
+    'EVID': ('event', 1, 0),
+    'MDV': ('mdv', 1, 0),
+}
+
+
+def _convert_parent(columns):
+    """pheno around a private copy of its dataset with the given data items appended"""
+    m = _pheno()
+    df = m.dataset.copy(deep=True)
+    dose = df['AMT'] > 0
+    for c in columns:
+        tp, dval, oval = _CONVERT_COLUMNS[c]
+        df[c] = [dval if d else oval for d in dose]
+    model = m.replace(dataset=df)
+    di = model.datainfo
+    for c in columns:
+        tp = _CONVERT_COLUMNS[c][0]
+        if tp != 'unknown':
+            di = di.set_column(di[c].replace(type=tp))
+    return model.replace(datainfo=di)
+
+
+def _convert_parents(tier):
+    """the data items alone and in pairs"""
+    names = list(_CONVERT_COLUMNS)
+    sets = [(c,) for c in names] + list(itertools.combinations(names, 2))
+    return {'pheno with the data item' + ('s ' if len(cs) > 1 else ' ') + ', '.join(cs):
+            (lambda cs=cs: _convert_parent(cs)) for cs in sets}
+
+
+def _convert_writers():
+    from pharmpy import modeling as mo
+
+    def conv(fmt):
+        return lambda m, d: mo.convert_model(m, fmt)
+
+    return {f'convert_model({fmt})': (_fid(mo.convert_model), conv(fmt)) for fmt in ('nlmixr', 'rxode', 'generic')}
+
+
+def _model_convert_wf(tier):
+    """each parent -> replace(name) (a derived model that shares its data frames with the parent) -> converter;
+    thorough: also the parent itself and the parents of the writers' frame"""
+    trs = ['replace(name)'] if tier == 'quick' else ['replace(name)', 'itself', 'add_time_after_dose']
+    parents = list(_convert_parents(tier)) + ([] if tier == 'quick' else list(_frame_parents()))
+    for pl in parents:
+        for tl in trs:
+            for wl in _convert_writers():
+                yield (f'frame: {pl} -> {tl} -> {wl}',
+                       (lambda pl=pl, tl=tl, wl=wl: _frame_case(pl, tl, wl, tier)))
+
+
+# ------------------------------------------------------------------------------------------------
+# Model: transformations of a model that had been hashed before (equality stays consistent with hashing
+# along transformation sequences: hashes are cached in the components, a derived component must not
+# inherit the cached hash of the component it was derived from)
+# ------------------------------------------------------------------------------------------------
+def _model_transformations(tier):
+    """label -> transformation(model) of the pheno model; every component of a model is changed by some of them"""
+    import pandas as pd
+
+    from pharmpy import modeling as mo
+    from pharmpy.basic import Expr
+    from pharmpy.model import ExecutionSteps
+
+    def toolopts(m):
+        st = m.execution_steps[0].replace(tool_options={'A': 1, 'B': 2})
+        return m.replace(execution_steps=ExecutionSteps.create([st]))
+
+    def cell(m):
+        df = m.dataset.copy()
+        df.loc[df.index[3], 'WGT'] = df.loc[df.index[3], 'WGT'] + 1.0
+        return m.replace(dataset=df)
+
+    def iie(m):
+        return m.replace(initial_individual_estimates=pd.DataFrame(
+            {'ETA_CL': [0.1, 0.2], 'ETA_VC': [0.0, 0.1]}, index=[1, 2]))
+
+    def tmdd_dv_types(m):
+        # dv_types needs a DVID column
+        df = m.dataset.copy()
+        df['DVID'] = 1
+        m = m.replace(dataset=df)
+        m = m.replace(datainfo=m.datainfo.set_column(m.datainfo['DVID'].replace(type='dvid')))
+        return mo.set_tmdd(m, 'qss', dv_types={'drug': 1, 'target': 2})
+
+    y = Expr.symbol('Y')
+    tr = {
+        'replace()': lambda m: m.replace(),
+        'replace(name)': lambda m: m.replace(name='other'),
+        'set_initial_estimates': lambda m: mo.set_initial_estimates(m, {'POP_CL': 0.01}),
+        'fix_parameters': lambda m: mo.fix_parameters(m, ['POP_CL']),
+        'add_peripheral_compartment': lambda m: mo.add_peripheral_compartment(m),
+        'set_first_order_absorption': lambda m: mo.set_first_order_absorption(m),
+        'set_additive_error_model': lambda m: mo.set_additive_error_model(m),
+        'statements.reassign': lambda m: m.replace(statements=m.statements.reassign('S1', Expr.symbol('VC') * 2)),
+        'remove_iiv': lambda m: mo.remove_iiv(m, 'CL'),
+        'create_joint_distribution': lambda m: mo.create_joint_distribution(m),
+        'set_estimation_step': lambda m: mo.set_estimation_step(m, 'FO', 0),
+        'add_estimation_step': lambda m: mo.add_estimation_step(m, 'IMP'),
+        'tool options': toolopts,
+        'dataset cell': cell,
+        'initial individual estimates': iie,
+        'replace(dependent_variables)': lambda m: m.replace(dependent_variables={y: 2}),
+        'dependent_variables.replace(Y, 2)': lambda m: m.replace(
+            dependent_variables=m.dependent_variables.replace(y, 2)),
+        'replace(observation_transformation)': lambda m: m.replace(observation_transformation={y: y.log()}),
+        'observation_transformation.replace(Y, log(Y))': lambda m: m.replace(
+            observation_transformation=m.observation_transformation.replace(y, y.log())),
+        'replace(value_type)': lambda m: m.replace(value_type='LIKELIHOOD'),
+        'set_direct_effect(linear)': lambda m: mo.set_direct_effect(m, 'linear'),
+        'add_effect_compartment(linear)': lambda m: mo.add_effect_compartment(m, 'linear'),
+        'add_indirect_effect(linear)': lambda m: mo.add_indirect_effect(m, 'linear'),
+        'set_baseline_effect': lambda m: mo.set_baseline_effect(m),
+        'add_metabolite': lambda m: mo.add_metabolite(m),
+        'add_time_after_dose': lambda m: mo.add_time_after_dose(m),
+    }
+    if tier != 'quick':
+        for e in ('emax', 'sigmoid', 'step', 'loglin'):
+            tr[f'set_direct_effect({e})'] = lambda m, e=e: mo.set_direct_effect(m, e)
+            tr[f'add_effect_compartment({e})'] = lambda m, e=e: mo.add_effect_compartment(m, e)
+        for e in ('emax', 'sigmoid'):
+            tr[f'add_indirect_effect({e})'] = lambda m, e=e: mo.add_indirect_effect(m, e)
+            tr[f'add_indirect_effect({e}, prod=False)'] = lambda m, e=e: mo.add_indirect_effect(m, e, prod=False)
+        tr.update({
+            'set_lower_bounds': lambda m: mo.set_lower_bounds(m, {'POP_CL': 0.001}),
+            'set_zero_order_absorption': lambda m: mo.set_zero_order_absorption(m),
+            'set_transit_compartments': lambda m: mo.set_transit_compartments(m, 2),
+            'add_lag_time': lambda m: mo.add_lag_time(m),
+            'set_michaelis_menten_elimination': lambda m: mo.set_michaelis_menten_elimination(m),
+            'set_proportional_error_model': lambda m: mo.set_proportional_error_model(m),
+            'set_combined_error_model': lambda m: mo.set_combined_error_model(m),
+            'add_iiv': lambda m: mo.add_iiv(m, 'S1', 'exp'),
+            'add_covariate_effect': lambda m: mo.add_covariate_effect(m, 'CL', 'WGT', 'pow'),
+            'add_allometry': lambda m: mo.add_allometry(m, allometric_variable='WGT'),
+            'transform_etas_boxcox': lambda m: mo.transform_etas_boxcox(m),
+            'set_tmdd(full)': lambda m: mo.set_tmdd(m, 'full'),
+            'set_tmdd(qss, dv_types)': tmdd_dv_types,
+            'drop_columns': lambda m: mo.drop_columns(m, ['APGR']),
+            'add_predictions': lambda m: mo.add_predictions(m, ['CIPREDI']),
+        })
+    return tr
+
+
+def _model_unhashed_copy():
+    """a structurally new copy of pheno (every component rebuilt from its dictionary form) that has never
+    been hashed, around the dataset of pheno"""
+    from pharmpy.model import Model
+
+    m = _pheno()
+    return Model.from_dict(Model.to_dict(m)).replace(dataset=m.dataset)
+
+
+def _model_hashed_case(label, tier):
+    from pharmpy.model import Model
+
+    fid = _fid(Model, '__hash__')
+    tr = _model_transformations(tier)[label]
+    fresh = _model_unhashed_copy()
+    if 'hashed copy' not in _CACHE:
+        # built once: the transformations do not modify it, and hashing it again changes nothing
+        _CACHE['hashed copy'] = _model_unhashed_copy()
+    hashed = _CACHE['hashed copy']
+    hash(hashed)
+    for part in ('parameters', 'random_variables', 'statements', 'dependent_variables',
+                 'observation_transformation', 'execution_steps', 'datainfo'):
+        hash(getattr(hashed, part))
+    outcome = []
+    for src in (fresh, hashed):
+        try:
+            outcome.append(('returned', tr(src)))
+        except Exception as e:
+            outcome.append(('raised', _exc(e)))
+    (ka, a), (kb, b) = outcome
+    if ka != kb:
+        return [(fid, C_MODEL_DERIVE, False, f'on the never-hashed copy the transformation {ka} {_short(a, 60)}, on '
+                 f'the hashed copy it {kb} {_short(b, 60)}')]
+    if ka == 'raised':
+        return [(fid, C_MODEL_DERIVE, True, '')]  # not applicable to this model
+    if not (_eq(a, b) and _eq(b, a)):
+        return [(fid, C_MODEL_DERIVE, False, 'the two results are not equal; differing fields: ' + _diff_fields(a, b))]
+    ha, hb = hash(a), hash(b)
+    if ha != hb:
+        parts = [k for k in ('parameters', 'random_variables', 'statements', 'dependent_variables',
+                             'observation_transformation', 'execution_steps', 'datainfo')
+                 if hash(getattr(a, k)) != hash(getattr(b, k))]
+        return [(fid, C_MODEL_DERIVE, False, 'the two results are equal but have different hashes; equal parts with '
+                 f'different hashes: {parts}')]
+    return [(fid, C_MODEL_DERIVE, True, '')]
+
+
+def _model_hashed_wf(tier):
+    for label in _model_transformations(tier):
+        yield (f'hashed source: {label}', (lambda label=label: _model_hashed_case(label, tier)))
+
+
+# ------------------------------------------------------------------------------------------------
+# Model: serialisation round trips over the ODE structures the API can produce (evaluated apart from the
+# corpus of the class: dictionary form and generic code of the model, of its statements and of its ODE system)
+# ------------------------------------------------------------------------------------------------
+def _model_structures(tier):
+    """label -> model; compartmental systems with chains, cycles, several outputs, inputs and compartments
+    that take part in no flow"""
+    from pharmpy import modeling as mo
+    from pharmpy.basic import Expr
+    from pharmpy.model import Compartment, CompartmentalSystem, CompartmentalSystemBuilder
+
+    def with_compartments(model, comps):
+        odes = model.statements.ode_system
+        cb = CompartmentalSystemBuilder(odes)
+        for c in comps:
+            cb.add_compartment(c)
+        st = model.statements
+        return model.replace(statements=st.before_odes + CompartmentalSystem.create(cb, t=odes.t) + st.after_odes)
+
+    def auc(model):
+        central = model.statements.ode_system.central_compartment
+        return Compartment.create('AUC', input=central.amount / Expr.symbol('S1'))
+
+    m = _pheno
+    st = {
+        'pheno': lambda: m(),
+        'pheno + compartment without any flow, fed by its input (AUC)': lambda: with_compartments(m(), [auc(m())]),
+        'pheno + compartment without any flow or input': lambda: with_compartments(m(), [Compartment.create('EXTRA')]),
+        'pheno + two compartments without any flow': lambda: with_compartments(
+            m(), [auc(m()), Compartment.create('EXTRA')]),
+        'peripheral + compartment without any flow (AUC)': lambda: (
+            lambda p: with_compartments(p, [auc(p)]))(mo.add_peripheral_compartment(m())),
+        'first order absorption + compartment without any flow (AUC)': lambda: (
+            lambda p: with_compartments(p, [auc(p)]))(mo.set_first_order_absorption(m())),
+        'peripheral': lambda: mo.add_peripheral_compartment(m()),
+        'two peripherals': lambda: mo.add_peripheral_compartment(mo.add_peripheral_compartment(m())),
+        'first order absorption': lambda: mo.set_first_order_absorption(m()),
+        'transit compartments': lambda: mo.set_transit_compartments(m(), 2),
+        'effect compartment': lambda: mo.add_effect_compartment(m(), 'linear'),
+        'indirect effect': lambda: mo.add_indirect_effect(m(), 'linear'),
+        'metabolite': lambda: mo.add_metabolite(m()),
+    }
+    if tier != 'quick':
+        st.update({
+            'zero order absorption': lambda: mo.set_zero_order_absorption(m()),
+            'lag time': lambda: mo.add_lag_time(m()),
+            'michaelis menten elimination': lambda: mo.set_michaelis_menten_elimination(m()),
+            'tmdd full': lambda: mo.set_tmdd(m(), 'full'),
+            'tmdd qss': lambda: mo.set_tmdd(m(), 'qss'),
+            'presystemic metabolite': lambda: mo.add_metabolite(mo.set_first_order_absorption(m()), presystemic=True),
+            'effect compartment + compartment without any flow (AUC)': lambda: (
+                lambda p: with_compartments(p, [auc(p)]))(mo.add_effect_compartment(m(), 'linear')),
+        })
+    return st
+
+
+def _model_structure_case(label, tier):
+    from pharmpy.model import CompartmentalSystem, Model, Statements
+    from pharmpy.model.external.generic import parse_model
+
+    x = _model_structures(tier)[label]()
+    res = []
+    odes = x.statements.ode_system
+    levels = [(CompartmentalSystem, odes, lambda v: v.to_dict(), CompartmentalSystem.from_dict),
+              (Statements, x.statements, lambda v: v.to_dict(), Statements.from_dict),
+              (Model, x, lambda v: Model.to_dict(v), Model.from_dict)]
+    for cls, obj, to_dict, from_dict in levels:
+        fid = _fid(cls, 'from_dict')
+        try:
+            d = to_dict(obj)
+            for clause, dd in ((C_RT, d), (C_RTJ, json.loads(json.dumps(d)))):
+                back = from_dict(dd)
+                ok = _eq(back, obj) and _eq(obj, back)
+                det = f'{cls.__name__}: round trip == x is {ok}'
+                if ok:
+                    hash(back)
+                elif cls is CompartmentalSystem:
+                    det += f'; compartments {back.compartment_names} expected {obj.compartment_names}'
+                else:
+                    det += '; differing fields: ' + _diff_fields(back, obj)
+                res.append((fid, clause, ok, det))
+        except Exception as e:
+            res.append((fid, C_RT, False, f'{cls.__name__}: raised ' + _exc(e)))
+    res.extend(_model_extra_unary(x, None))
+    return res
+
+
+def _model_structure_wf(tier):
+    for label in _model_structures(tier):
+        yield (f'ODE structure: {label}', (lambda label=label: _model_structure_case(label, tier)))
+
+
 def _model_wf_all(tier):
     yield from _model_wf(tier)
     yield from _model_frame_wf(tier)
+    yield from _model_convert_wf(tier)
+    yield from _model_hashed_wf(tier)
+    yield from _model_structure_wf(tier)
 
 
 # ------------------------------------------------------------------------------------------------
@@ -2072,7 +2557,7 @@ def _specs():
              create_name='__init__'),
         Spec('Unit', Unit, _unit_entries, lambda x: x.serialize(), Unit.deserialize, dict_names=ser,
              create_name='__init__'),
-        Spec('frozenmapping', frozenmapping, _frozenmapping_entries, create_name='__init__'),
+        Spec('frozenmapping', frozenmapping, _frozenmapping_entries, wf=_frozenmapping_wf, create_name='__init__'),
         Spec('Parameter', Parameter, _parameter_entries, td, Parameter.from_dict, _parameter_wf),
         Spec('Parameters', Parameters, _parameters_entries, td, Parameters.from_dict, _parameters_wf),
         Spec('ColumnInfo', ColumnInfo, _columninfo_entries, td, ColumnInfo.from_dict, _columninfo_wf),
@@ -2098,6 +2583,7 @@ def _specs():
         Spec('Model', Model, _model_entries, lambda x: Model.to_dict(x), Model.from_dict, _model_wf_all),
     ]
     specs[-1].extra_unary = _model_extra_unary
+    specs[-1].parallel_wf = True
     return specs
 
 
@@ -2119,7 +2605,16 @@ def bounded_value_classes(tier, only=None):
         cases += c
         nontriv += nt
         per.append(f'{name}:{c}')
-        fails.extend(f.values())
+        for fail in f.values():
+            # one entry per (fid, clause): a clause that fails in the checks of two classes (the ODE structures
+            # of the Model checks are also held to the clauses of CompartmentalSystem / Statements) is reported
+            # with the first (smallest) case and all failing cases in enumeration order
+            first = next((g for g in fails if (g['fid'], g['clause']) == (fail['fid'], fail['clause'])), None)
+            if first is None:
+                fails.append(fail)
+            else:
+                first['failing_cases'] += fail['failing_cases']
+                first['also'] = (first['also'] + [c for c in fail['also'] if c not in first['also']])[:300]
         if len(samples) < 3 and smp and name in ('Parameter', 'CompartmentalSystem', 'Model'):
             samples.append(smp[0])
     return {
@@ -2142,7 +2637,24 @@ def bounded_value_classes(tier, only=None):
                  + ('' if tier == 'quick' else ', fix, first order absorption, error model, estimation step, '
                     'dropped column, two removals') + ') x 5 writers (model.code, update_source, write_model, '
                  'write_csv, write_files) with deep snapshots (data frame contents, generated code) of the derived '
-                 'model and of its parent around every step',
+                 'model and of its parent around every step; the same frame for convert_model to nlmixr / rxode / '
+                 'generic on pheno with each of the data items ' + ', '.join(_CONVERT_COLUMNS) + ' and each pair of '
+                 'them appended to its dataset (' + str(len(_convert_parents(tier))) + ' models'
+                 + (', converted through a renamed copy that shares the data frames' if tier == 'quick' else
+                    ' and the 4 parents above; converted directly, through a renamed copy and after '
+                    'add_time_after_dose') + '); CompartmentalSystem also with every subset of the flows that keeps '
+                 'the output flow (isolated compartments) without / with an accumulation compartment outside every '
+                 'flow; replace() after hashing: for every one-field perturbation of every class with create() and '
+                 'replace(), base.replace(field=value) with base hashed before / never hashed / created directly; '
+                 'frozenmapping.replace on ' + ('4' if tier == 'quick' else '6') + ' mappings x every key and one new '
+                 'key x 3 values x source never hashed / hashed / copy of a hashed mapping; '
+                 + str(len(_model_transformations(tier))) + ' transformations (every component of the model, all '
+                 'PD / metabolite' + ('' if tier == 'quick' else ' / TMDD') + ' functions that add a dependent '
+                 'variable) applied to a hashed and to a never-hashed structural copy of pheno; dictionary and '
+                 'generic-code round trips of the model, its statements and its ODE system for '
+                 + str(len(_model_structures(tier))) + ' ODE structures (peripherals, absorption, transit, effect, '
+                 'indirect response, metabolite' + ('' if tier == 'quick' else ', TMDD') + ', and compartments '
+                 'that take part in no flow, with and without an input)',
         'samples': samples,
         'per_class_cases': ' '.join(per),
         'fails': fails,
@@ -2155,7 +2667,7 @@ def bounded_value_classes_replay(rp):
     key = (case['fid'], case['clause'])
     for tier in ('quick', 'thorough'):
         if case['kind'] == 'wf':
-            for case_id, thunk in spec.wf(tier):
+            for case_id, thunk in _all_wf(spec, tier):
                 if case_id == case['x']:
                     try:
                         results = thunk()
@@ -2209,6 +2721,8 @@ C_H_SAME = 'models with the same content (differing only in name, description, p
 C_H_DIFF = 'models that differ in a parameter, random variable, statement, execution step or data value have different keys'
 C_H_PROC = 'the key computed in a fresh interpreter (PYTHONHASHSEED=0, 1, random) equals the in-process key'
 C_H_STABLE = 'computing the key twice gives the same key and leaves the model equal to itself'
+C_H_HIST = ('the key of a model does not depend on which other models were hashed before it in the same process '
+            '(the keys computed in the reverse order in a fresh interpreter equal the in-process keys)')
 _SEEDS = ('0', '1', 'random')
 
 
@@ -2244,14 +2758,86 @@ def _hash_variants():
                   'estimation method', 'estimation option', 'estimation added', 'dataset cell', 'dataset column',
                   'dependent variables', 'value type'):
         v[label] = (mv[label][0], label)
+    v.update(_hash_field_variants())
     return v
 
 
-def _hash_keys(labels=None):
+def _hash_field_variants():
+    """pheno with ONE field of its estimation step, of one of its column descriptions or of its datainfo changed
+    (every field of these classes).  A changed execution step is a content class of its own (the property names
+    the execution steps); for a changed column description / datainfo field the property does not say whether
+    the key changes: content class (pheno, field), see _content_relation."""
+    from pharmpy.basic import Expr
+    from pharmpy.model import ExecutionSteps
+
+    m = _pheno
+    eta = [Expr.symbol(n) for n in ('ETA_CL', 'ETA_VC')]
+    step_fields = [
+        ('interaction', [False, True]), ('parameter_uncertainty_method', ['SMAT', 'RMAT']),
+        ('evaluation', [True, False]), ('maximum_evaluations', [17, 18]), ('laplace', [True, False]),
+        ('isample', [10, 11]), ('niter', [5, 6]), ('auto', [True, False]), ('keep_every_nth_iter', [2, 3]),
+        ('residuals', [('CWRES',), ('RES',)]), ('predictions', [('PRED',), ('IPRED',)]),
+        ('solver', ['LSODA', 'CVODES']), ('solver_rtol', [3, 4]), ('solver_atol', [3, 4]),
+        ('tool_options', [{'A': 1}, {'A': 2}]), ('derivatives', [((eta[0],),), ((eta[1],),)]),
+        ('individual_eta_samples', [True, False]),
+    ]
+    column_fields = [
+        ('type', ['unknown', 'covariate']), ('unit', ['mg', 'kg']), ('scale', ['interval', 'ratio']),
+        ('continuous', [False, True]), ('categories', [(1, 2), (1, 3)]), ('drop', [True, False]),
+        ('datatype', ['int32', 'float64']), ('descriptor', ['body weight', 'age']),
+    ]
+    datainfo_fields = [('separator', ['\t', ',']), ('missing_data_token', ['-999', '-99'])]
+
+    def other(current, candidates):
+        return next(c for c in candidates if not _safe_eq(c, current) or type(c) is not type(current))
+
+    def step(field, candidates):
+        def th():
+            steps = m().execution_steps
+            new = steps[0].replace(**{field: other(getattr(steps[0], field), candidates)})
+            return m().replace(execution_steps=ExecutionSteps.create([new] + list(steps[1:])))
+        return th
+
+    def column(field, candidates):
+        def th():
+            di = m().datainfo
+            col = di['WGT']
+            return m().replace(datainfo=di.set_column(col.replace(**{field: other(getattr(col, field), candidates)})))
+        return th
+
+    def datainfo(field, candidates):
+        def th():
+            di = m().datainfo
+            return m().replace(datainfo=di.replace(**{field: other(getattr(di, field), candidates)}))
+        return th
+
+    v = {}
+    for field, candidates in step_fields:
+        v[f'estimation step: {field}'] = (step(field, candidates),
+                                          'estimation option' if field == 'interaction' else f'estimation step: {field}')
+    for field, candidates in column_fields:
+        v[f'column WGT: {field}'] = (column(field, candidates), ('pheno', f'column WGT: {field}'))
+    for field, candidates in datainfo_fields:
+        v[f'datainfo: {field}'] = (datainfo(field, candidates), ('pheno', f'datainfo: {field}'))
+    return v
+
+
+def _content_relation(ca, cb):
+    """'same' / 'different' content of two variants by their content classes, or None where the property does
+    not decide (same mathematical content and dataset, different description of the data columns)"""
+    ma, da = ca if isinstance(ca, tuple) else (ca, None)
+    mb, db = cb if isinstance(cb, tuple) else (cb, None)
+    if ma != mb:
+        return 'different'
+    return 'same' if da == db else None
+
+
+def _hash_keys(labels=None, reverse=False):
     from pharmpy.workflows.hashing import ModelHash
 
     out = {}
-    for label, (thunk, _) in _hash_variants().items():
+    items = list(_hash_variants().items())
+    for label, (thunk, _) in (reversed(items) if reverse else items):
         if labels is not None and label not in labels:
             continue
         try:
@@ -2261,17 +2847,21 @@ def _hash_keys(labels=None):
     return out
 
 
-def _hash_keys_subprocess_start(seed, labels=None):
+def _hash_keys_subprocess_start(seed, labels=None, reverse=False):
     root = os.path.dirname(os.path.dirname(os.path.abspath(__file__)))
     env = dict(os.environ)
     env['PYTHONPATH'] = root + os.pathsep + env.get('PYTHONPATH', '')
+    repo = env.get('VERIF_REPO')
+    if repo and repo != '/repo':
+        # a run against a scratch copy of the repository: the fresh interpreter uses the same sources
+        env['PYTHONPATH'] = os.path.join(repo, 'src') + os.pathsep + env['PYTHONPATH']
     if seed == 'random':
         env.pop('PYTHONHASHSEED', None)
         env['PYTHONHASHSEED'] = 'random'
     else:
         env['PYTHONHASHSEED'] = seed
     code = ('import warnings; warnings.filterwarnings("ignore"); import json; import contracts.b_structs as b; '
-            f'print("KEYS=" + json.dumps(b._hash_keys({labels!r})))')
+            f'print("KEYS=" + json.dumps(b._hash_keys({labels!r}, {bool(reverse)!r})))')
     return subprocess.Popen([sys.executable, '-W', 'ignore', '-c', code], cwd=root, env=env,
                             stdout=subprocess.PIPE, stderr=subprocess.PIPE, text=True)
 
@@ -2290,6 +2880,7 @@ def bounded_modelhash(tier):
     fid = _fid(ModelHash, '__init__')
     variants = _hash_variants()
     procs = {seed: _hash_keys_subprocess_start(seed) for seed in _SEEDS}
+    reversed_proc = _hash_keys_subprocess_start('0', reverse=True)
     keys = _hash_keys()
     fails = {}
 
@@ -2318,12 +2909,12 @@ def bounded_modelhash(tier):
         for b in labels[i + 1:]:
             cases += 1
             nontriv += 1
-            same_content = variants[a][1] == variants[b][1]
+            relation = _content_relation(variants[a][1], variants[b][1])
             same_key = keys[a] == keys[b]
-            if same_content and not same_key:
+            if relation == 'same' and not same_key:
                 note(C_H_SAME, f'{a} and {b} have the same content but keys {keys[a]} and {keys[b]}',
                      {'kind': 'pair', 'x': a, 'y': b})
-            if not same_content and same_key:
+            if relation == 'different' and same_key:
                 note(C_H_DIFF, f'{a} and {b} differ in content but both have key {keys[a]}',
                      {'kind': 'pair', 'x': a, 'y': b})
     for seed in _SEEDS:
@@ -2334,14 +2925,25 @@ def bounded_modelhash(tier):
             if sub.get(label) != keys[label]:
                 note(C_H_PROC, f'{label}: in-process key {keys[label]}, fresh interpreter with PYTHONHASHSEED={seed} '
                      f'gives {sub.get(label, sub.get("__error__"))}', {'kind': 'seed', 'x': label, 'seed': seed})
-    classes = sorted({c for _, c in variants.values()})
+    sub = _hash_keys_subprocess_finish(reversed_proc)
+    for label in labels:
+        cases += 1
+        nontriv += 1
+        if sub.get(label) != keys[label]:
+            note(C_H_HIST, f'{label}: key {keys[label]} when the keys are computed in the order of the corpus, '
+                 f'{sub.get(label, sub.get("__error__"))} when they are computed in the reverse order (fresh '
+                 'interpreter)', {'kind': 'history', 'x': label})
+    classes = sorted({c if isinstance(c, str) else ' / '.join(c) for _, c in variants.values()})
     return {
         'cases': cases,
         'nontrivial': nontriv,
         'bound': f'pheno example model and {len(labels) - 1} one-step variants in {len(classes)} content classes '
                  '(9 renamings/re-parsings/copies of pheno, 2+4 orders of setting initial estimates, ODE system '
-                 'rebuilt in reverse insertion order, tool options in two dict orders, 14 single content changes), '
-                 'all pairs; every key recomputed in 3 fresh interpreters (PYTHONHASHSEED=0, 1, random)',
+                 'rebuilt in reverse insertion order, tool options in two dict orders, 14 single content changes, '
+                 'every other field of the estimation step (17), every field of the description of the column WGT '
+                 '(8) and the separator / missing data token of the datainfo changed one at a time), '
+                 'all pairs; every key recomputed in 3 fresh interpreters (PYTHONHASHSEED=0, 1, random) and, in '
+                 'the reverse order of the corpus, in a fourth one',
         'samples': [f'{k}: {keys[k]}' for k in labels[:3]],
         'fails': list(fails.values()),
     }
@@ -2387,9 +2989,16 @@ def bounded_modelhash_replay(rp):
     if case['kind'] == 'pair':
         a, b = case['x'], case['y']
         keys = _hash_keys([a, b])
-        same_content = variants[a][1] == variants[b][1]
-        if same_content != (keys[a] == keys[b]):
-            return False, f'{a}: {keys[a]}, {b}: {keys[b]}, same content: {same_content}'
+        relation = _content_relation(variants[a][1], variants[b][1])
+        if relation is not None and (relation == 'same') != (keys[a] == keys[b]):
+            return False, f'{a}: {keys[a]}, {b}: {keys[b]}, content: {relation}'
+        return True, 'ok'
+    if case['kind'] == 'history':
+        proc = _hash_keys_subprocess_start('0', reverse=True)
+        keys = _hash_keys()
+        sub = _hash_keys_subprocess_finish(proc)
+        if sub.get(case['x']) != keys[case['x']]:
+            return False, f'{case["x"]}: {keys[case["x"]]} in the order of the corpus, {sub.get(case["x"])} reversed'
         return True, 'ok'
     label, seed = case['x'], case['seed']
     proc = _hash_keys_subprocess_start(seed, [label])
